@@ -55,6 +55,17 @@ def check(run, driver):
         "Non-trivial = at least one edge; distinct by parameter hash"
     )
     thorough = run.tier == "thorough"
+    # ---- translator: the slices that build the lagged design matrix, the own-history block and the target matrix, the loop nest and the
+    #      label appended with each column are read off the CURRENT source; the slice bounds become Lean terms and must say, for ALL
+    #      max_lag, tau, T, r: row r of a column = series at time (max_lag + r) - tau (the model's lagged_entry), same row count as the targets
+    import gen_tables
+    try:
+        src = gen_tables.lagged_obligation_source()
+        ok, out = gen_tables.obligation_standalone("ObC01", src)
+        run.oblige("ObC01 lagged-design slices, own-history slices, target slice and (variable, lag) labelling regenerated from the source = the model's alignment, for all max_lag, tau, T, rows (ring / decide)", ok, out if not ok else "")
+        run.extra["translator"] = "lagged design of discover_network translated"
+    except gen_tables.Untranslatable as e:
+        run.extra["translator"] = f"UNTRANSLATABLE ({e}) -- the construction is outside the recognised shape; the obligation is not established on this run and the property is decided by the coded-series replay alone"
     rng = run.rng
     warnings.simplefilter("ignore")
     reqs, meta = [], []
